@@ -29,6 +29,10 @@ import (
 
 func init() {
 	register(&Prop{ID: "C07", Gen: genC07, Run: runC07})
+	synthDijkstraAccepts = func(b []byte) bool {
+		_, err := ledger.NewBlockFromCbor(eraBlockType["dijkstra"], b, common.VerifyConfig{SkipBodyHashValidation: true})
+		return err == nil
+	}
 }
 
 var c07Forms = []string{"w1", "w2", "w4", "w8", "indef", "min"}
